@@ -467,7 +467,7 @@ Proof.
     assert (Hnd: forall en0, nth_error (ents (w_st w)) e = Some en0 -> is_discarded (e_ign en0) = false).
     { intros en0 H0. assert (en0 = en) by congruence. subst en0. rewrite Hi. reflexivity. }
     destruct (get_latest_both (real_evl w) g w e w1 I He Hnd Eg) as (I1 & R1 & R2 & Hp & Hgx & (en0 & en1 & Hn0 & Hn1 & Hi1 & Hm1) & Hnow).
-    destruct (get_latest_pres (real_evl w) g w e false _ w1 I He Eg) as (_ & _ & _ & _ & Htf).
+    destruct (get_latest_pres (real_evl w) g w e false _ w1 I He Eg) as (_ & _ & _ & _ & Htf & _).
     assert (en0 = en) by congruence. subst en0.
     split; [exact Hgx|]. split; [intros sd; rewrite Htf; apply Htmp|]. split; [exact Hp|].
     exists en1. split; [|split; [congruence|lia]].
@@ -510,7 +510,7 @@ Proof.
   intros I He H. unfold fill_one in H. unfold get_e, lift, get_ent in H.
   destruct (nth_error (ents (w_st w)) e) as [en|]; [|discriminate]. cbn [rbind] in H.
   match type of H with (if ?B then _ else _) = _ => destruct B end.
-  - destruct (get_latest_pres (real_evl w) g w e false [sd] w' I He H) as (I1 & Hp & Hgx & _ & Htf).
+  - destruct (get_latest_pres (real_evl w) g w e false [sd] w' I He H) as (I1 & Hp & Hgx & _ & Htf & _).
     split.
     + unfold Inv. apply (InvP_ext (real_evl w)); [intros sd0; unfold real_evl; rewrite Hp; reflexivity|exact I1].
     + split; [|exact Hp]. intros x sd0. destruct (Nat.eq_dec x e) as [->|Hne]; [apply Htf|rewrite Hgx by exact Hne; reflexivity].
